@@ -186,8 +186,10 @@ def run(pid, kind_, *args):
 
 
 def serves(name, pid):
-    cl = name.split('/')[-1].split('[')[0]
-    return pid is None or pid in SERVES.get(cl, [])
+    cl = name.partition('[')[0].split('/')[-1]
+    if cl not in SERVES:
+        raise RuntimeError(f"clause {name!r} is mapped to no property (SERVES)")     # never drop a clause silently
+    return pid is None or pid in SERVES[cl]
 
 
 class Ctx:
